@@ -1819,8 +1819,12 @@ void _process_authenticode(
     if (authenticode->digest.data)
     {
       char* digest_ascii = yr_malloc(authenticode->digest.len * 2 + 1);
-      for (int j = 0; j < authenticode->digest.len; ++j)
-        sprintf(digest_ascii + (j * 2), "%02x", authenticode->digest.data[j]);
+
+      if (digest_ascii != NULL)
+      {
+        for (int j = 0; j < authenticode->digest.len; ++j)
+          sprintf(digest_ascii + (j * 2), "%02x", authenticode->digest.data[j]);
+      }
 
       yr_set_string(
           digest_ascii, pe->object, "signatures[%i].digest", *sig_count);
@@ -1830,9 +1834,13 @@ void _process_authenticode(
     if (authenticode->file_digest.data)
     {
       char* digest_ascii = yr_malloc(authenticode->file_digest.len * 2 + 1);
-      for (int j = 0; j < authenticode->file_digest.len; ++j)
-        sprintf(
-            digest_ascii + (j * 2), "%02x", authenticode->file_digest.data[j]);
+
+      if (digest_ascii != NULL)
+      {
+        for (int j = 0; j < authenticode->file_digest.len; ++j)
+          sprintf(
+              digest_ascii + (j * 2), "%02x", authenticode->file_digest.data[j]);
+      }
 
       yr_set_string(
           digest_ascii, pe->object, "signatures[%i].file_digest", *sig_count);
@@ -1883,8 +1891,12 @@ void _process_authenticode(
       if (signer->digest.data)
       {
         char* digest_ascii = yr_malloc(signer->digest.len * 2 + 1);
-        for (int j = 0; j < signer->digest.len; ++j)
-          sprintf(digest_ascii + (j * 2), "%02x", signer->digest.data[j]);
+
+        if (digest_ascii != NULL)
+        {
+          for (int j = 0; j < signer->digest.len; ++j)
+            sprintf(digest_ascii + (j * 2), "%02x", signer->digest.data[j]);
+        }
 
         yr_set_string(
             digest_ascii,
@@ -1949,8 +1961,12 @@ void _process_authenticode(
         if (counter->digest.data)
         {
           char* digest_ascii = yr_malloc(counter->digest.len * 2 + 1);
-          for (int j = 0; j < counter->digest.len; ++j)
-            sprintf(digest_ascii + (j * 2), "%02x", counter->digest.data[j]);
+
+          if (digest_ascii != NULL)
+          {
+            for (int j = 0; j < counter->digest.len; ++j)
+              sprintf(digest_ascii + (j * 2), "%02x", counter->digest.data[j]);
+          }
 
           yr_set_string(
               digest_ascii,
